@@ -60,7 +60,8 @@ def _corpus(only_props=None):
         head = open(os.path.join(md, f)).read(600)
         rule = (re.search(r"^# expected-rule: (\S+)", head, re.M) or [None, None])[1]
         prop = (re.search(r"^# expected-property: (\S+)", head, re.M) or [None, None])[1]
-        items.append({"name": "mutants/" + f[:-6], "patch": os.path.join(md, f), "prop": prop, "rule": rule, "kind": "mutant"})
+        tier = (re.search(r"^# tier: (\S+)", head, re.M) or [None, "quick"])[1]
+        items.append({"name": "mutants/" + f[:-6], "patch": os.path.join(md, f), "prop": prop, "rule": rule, "kind": "mutant", "tier": tier})
     sd = os.path.join(VERIF, "seeded")
     for d in sorted(os.listdir(sd)):
         pd = os.path.join(sd, d)
@@ -100,7 +101,7 @@ def selftest(args):
             props = [it["prop"]] if it["prop"] in claimed else []
         if not props:
             return it, {"_skip": "property not claimed"}
-        return it, _run_patch(it["patch"], props)
+        return it, _run_patch(it["patch"], props, it.get("tier", "quick"))
 
     with concurrent.futures.ThreadPoolExecutor(max_workers=int(os.environ.get("HBV_JOBS", "6"))) as ex:
         for it, res in ex.map(work, items):
